@@ -356,6 +356,43 @@ func c02Cell(k *core.Case, ci int, exhaustive bool) {
 			e.judge(pp, "deletion", posClass(off, len(p), icv))
 		}
 	}
+	// computed edits that keep a weak fingerprint (CRC-32 variants, CRC-64, XOR fold) of the datagram, of the datagram
+	// without its checksum, or of the SK body equal to that of the genuine message - each presented directly after
+	// the genuine message was accepted by this very key object (a receiver that "recognises" retransmissions)
+	for fi, fp := range core.Fingerprints {
+		if !exhaustive && (fi+k.Index)%3 != 0 {
+			continue
+		}
+		for region := 0; region < 3; region++ {
+			lo, hi := 0, len(p)
+			switch region {
+			case 1:
+				hi = len(p) - icv
+			case 2:
+				lo = 28
+			}
+			pp := append([]byte{}, p...)
+			// one altered bit (IV / ciphertext / header / checksum), then the patch somewhere else in the region
+			o1 := lo + k.R.Intn(hi-lo)
+			pp[o1] ^= byte(1 << uint(k.R.Intn(8)))
+			var pos int
+			switch k.R.Intn(3) {
+			case 0:
+				pos = hi - fp.Bytes // the last octets of the region (of the checksum, for region 0)
+			case 1:
+				pos = 32 + k.R.Intn(16-fp.Bytes+1) // inside the IV
+			default:
+				pos = lo + k.R.Intn(hi-lo-fp.Bytes+1)
+			}
+			w := core.Fingerprint{Name: fp.Name, Bits: fp.Bits, Bytes: fp.Bytes, F: func(b []byte) uint64 { return fp.F(b[lo:hi]) }}
+			if !core.PatchToCollide(pp, pos, w, w.F(p)) || bytes.Equal(pp, p) {
+				continue
+			}
+			e.judge(p, "genuine", "")
+			e.judge(pp, "same-"+fp.Name, posClass(minI(o1, pos), len(p), icv))
+			k.Count("forgeries_with_the_genuine_messages_weak_fingerprint", 1)
+		}
+	}
 	// random multi-octet edits
 	for i := 0; i < 48; i++ {
 		pp := append([]byte{}, p...)
@@ -475,7 +512,7 @@ func c02(c *core.Ctx) {
 	c.Info("assumptions", "acceptance with HMAC-collision probability (<= 2^-96) is treated as never || spies wrap the exported interface-typed fields Encr_i/Encr_r/Integ_i/Integ_r")
 	c.Family("cells-exhaustive", c.N(36*6, 36*2000), func(k *core.Case) { c02Cell(k, k.Index%36, true) })
 	c.Family("cells-sampled", c.N(36*12, 36*6000), func(k *core.Case) { c02Cell(k, k.Index%36, false) })
-	req := []string{"genuine_with_searched_crypto_values", "tampered_presented_with_a_held_header_object", "transport_framings_tried", "rejected_insertion", "genuine_accepted", "exhaustive_bitflip_messages", "rejected_cross-key", "rejected_reflection", "handled_as_unprotected", "rejected_short-sk-body"}
+	req := []string{"forgeries_with_the_genuine_messages_weak_fingerprint", "genuine_with_searched_crypto_values", "tampered_presented_with_a_held_header_object", "transport_framings_tried", "rejected_insertion", "genuine_accepted", "exhaustive_bitflip_messages", "rejected_cross-key", "rejected_reflection", "handled_as_unprotected", "rejected_short-sk-body"}
 	for _, pc := range allPosClasses {
 		req = append(req, "pos_"+pc)
 	}
